@@ -39,6 +39,32 @@ MUTANTS = [
     ('C01', 'lattice_layer.py', '            output_min=self.output_min,\n            output_max=self.output_max)\n    # TODO',
      '            output_min=self.output_max,\n            output_max=self.output_min)\n    # TODO',
      'P1', 'bounds swapped in finalize call'),
+    # ---- C02
+    ('C02', 'lattice_lib.py', '  sorted_indices = tf.argsort(inputs, direction="DESCENDING")',
+     '  sorted_indices = tf.argsort(inputs, direction="ASCENDING")', 'H4', 'argsort / sort direction mismatch'),
+    ('C02', 'lattice_lib.py', '                                          np.array(lattice_sizes) - 2)',
+     '                                          np.array(lattice_sizes) - 1)', 'H4', 'lower corner may be the last vertex'),
+    ('C02', 'lattice_lib.py', '      np.cumprod([1] + lattice_sizes[::-1][:-1])[::-1], tf.int32)',
+     '      np.cumprod([1] + lattice_sizes[:-1])[::-1], tf.int32)', 'H4', 'strides from un-reversed sizes'),
+    ('C02', 'lattice_lib.py', '    upper_bounds = [dim_size - 1.0 for dim_size in lattice_sizes]',
+     '    upper_bounds = [dim_size - 2.0 for dim_size in lattice_sizes]', 'H1', 'clip range one cell short'),
+    ('C02', 'lattice_lib.py', '    w = tf.stack([(1.0 - inputs), inputs], axis=-1)', '    w = tf.stack([inputs, (1.0 - inputs)], axis=-1)', 'H2',
+     'all-2 vertex order swapped'),
+    ('C02', 'lattice_lib.py', '    result = op(result, tf.expand_dims(tensor, axis=-2))', '    result = op(tf.expand_dims(tensor, axis=-2), result)',
+     'H3', 'outer product operands swapped'),
+    ('C02', 'lattice_lib.py', '    weights = 1.0 - tf.minimum(distance, 1.0)', '    weights = 1 - tf.minimum(distance, 1)', None,
+     'N: integer literals in the hat function'),
+    # ---- C05
+    ('C05', 'pwl_calibration_lib.py', '  weights = tf.minimum(weights, 1.0)', '  weights = tf.minimum(weights, 2.0)', 'E1',
+     'weights clipped at 2'),
+    ('C05', 'pwl_calibration_layer.py', '          [self.kernel, -tf.reduce_sum(self.kernel[1:], axis=0, keepdims=True)],',
+     '          [self.kernel, tf.reduce_sum(self.kernel[1:], axis=0, keepdims=True)],', 'E3', 'closing height sign'),
+    ('C05', 'categorical_calibration_layer.py', '      replacement = tf.zeros_like(inputs) + (self.num_buckets - 1)',
+     '      replacement = tf.zeros_like(inputs) + (self.num_buckets - 2)', 'E6', 'default mapped to the wrong bucket'),
+    ('C05', 'pwl_calibration_layer.py', '    kp_outputs = tf.cumsum(self.kernel)', '    kp_outputs = tf.cumsum(self.kernel, axis=1)', 'E3',
+     'keypoint outputs accumulated across units'),
+    ('C05', 'pwl_calibration_layer.py', '      result = is_missing * self.missing_output + (1.0 - is_missing) * result',
+     '      result = (1.0 - is_missing) * result + is_missing * self.missing_output', None, 'N: commuted imputation sum'),
     # ---- C03
     ('C03', 'pwl_calibration_layer.py', '        constraint=constraints,\n        dtype=self.dtype)\n\n    if self.kernel_regularizer and not tf.executing_eagerly():',
      '        constraint=None,\n        dtype=self.dtype)\n\n    if self.kernel_regularizer and not tf.executing_eagerly():',
